@@ -27,29 +27,29 @@ def errOk : Except Err Unit → Bool
 mutual
   /-- the invariants established by the constructors of the 13 geometry classes (typed containers
   included): what every `Geometry` object satisfies -/
-  def WFG : G → Bool
+  def WFG (arc : ArcOracle) : G → Bool
     | .point s => s.pts.length ≤ 1
     | .lineString s => lineOK s
     | .linearRing s => lineOK s && ringOK s
-    | .circularString s => circOK s
+    | .circularString s => circOK arc s
     | .polygon sh hs =>
       (lineOK sh && ringOK sh) && hs.all (fun r => lineOK r && ringOK r)
         && !(sh.pts.isEmpty && hs.any (fun r => !r.pts.isEmpty))
-    | .compoundCurve gs => gs.all isSimpleCurve && WFGs gs && errOk (checkContig gs)
+    | .compoundCurve gs => gs.all isSimpleCurve && WFGs arc gs && errOk (checkContig gs)
     | .curvePolygon gs =>
-      gs.all isCurve && WFGs gs &&
+      gs.all isCurve && WFGs arc gs &&
         (match gs with
          | [] => true
          | sh :: hs => !(gIsEmpty sh && hs.any (fun r => !gIsEmpty r)))
-    | .multiPoint gs => gs.all isPoint && WFGs gs
-    | .multiLineString gs => gs.all isLineString && WFGs gs
-    | .multiPolygon gs => gs.all isPolygon && WFGs gs
-    | .collection gs => WFGs gs
-    | .multiCurve gs => gs.all isCurve && WFGs gs
-    | .multiSurface gs => gs.all isSurface && WFGs gs
-  def WFGs : List G → Bool
+    | .multiPoint gs => gs.all isPoint && WFGs arc gs
+    | .multiLineString gs => gs.all isLineString && WFGs arc gs
+    | .multiPolygon gs => gs.all isPolygon && WFGs arc gs
+    | .collection gs => WFGs arc gs
+    | .multiCurve gs => gs.all isCurve && WFGs arc gs
+    | .multiSurface gs => gs.all isSurface && WFGs arc gs
+  def WFGs (arc : ArcOracle) : List G → Bool
     | [] => true
-    | g :: gs => WFG g && WFGs gs
+    | g :: gs => WFG arc g && WFGs arc gs
 end
 
 mutual
